@@ -250,6 +250,13 @@ func (p *Proc) havocHeap(st *State, key string, sort Sort) *Term {
 	return t
 }
 
+// mergeForce joins states unconditionally (sites that need a single continuation).
+func (p *Proc) mergeForce(states []*State) []*State {
+	p.forceMerge = true
+	defer func() { p.forceMerge = false }()
+	return p.merge(states)
+}
+
 // merge joins states; nil and dead states are dropped. States with different defer stacks are not merged.
 func (p *Proc) merge(states []*State) []*State {
 	var live []*State
@@ -274,13 +281,43 @@ func (p *Proc) merge(states []*State) []*State {
 	var out []*State
 	for _, sig := range order {
 		g := groups[sig]
-		m := g[0]
-		for i := 1; i < len(g); i++ {
-			m = p.merge2(m, g[i])
+		// states whose divergent facts are quantified (loop invariants, callee posts) stay
+		// separate: a disjunction of quantified facts makes the solvers give up
+		var merged []*State
+		for _, s := range g {
+			done := false
+			for i, m := range merged {
+				if p.forceMerge || canMerge(m, s) {
+					merged[i] = p.merge2(m, s)
+					done = true
+					break
+				}
+			}
+			if !done {
+				merged = append(merged, s)
+			}
 		}
-		out = append(out, m)
+		out = append(out, merged...)
 	}
 	return out
+}
+
+func canMerge(a, b *State) bool {
+	n := 0
+	for n < len(a.pc) && n < len(b.pc) && a.pc[n] == b.pc[n] {
+		n++
+	}
+	for _, t := range a.pc[n:] {
+		if strings.Contains(t.S, "(forall ") || strings.Contains(t.S, "(exists ") {
+			return false
+		}
+	}
+	for _, t := range b.pc[n:] {
+		if strings.Contains(t.S, "(forall ") || strings.Contains(t.S, "(exists ") {
+			return false
+		}
+	}
+	return true
 }
 
 func deferSig(s *State) string {
@@ -319,7 +356,8 @@ func (p *Proc) merge2(a, b *State) *State {
 		m.hv = &havocTree{sel: sel, a: a.hv, b: b.hv}
 	}
 	m.pc = append(m.pc, Imp(sel, ra), Imp(Not(sel), rb))
-	for k, va := range a.vars {
+	for _, k := range sortedObjs(a.vars) {
+		va := a.vars[k]
 		vb, ok := b.vars[k]
 		if !ok {
 			continue // variable out of scope in one branch
@@ -330,7 +368,8 @@ func (p *Proc) merge2(a, b *State) *State {
 			m.vars[k] = p.defineIte(m, "m_"+k.Name(), sel, va, vb)
 		}
 	}
-	for k, va := range a.heap {
+	for _, k := range sortedKeys(a.heap) {
+		va := a.heap[k]
 		vb, ok := b.heap[k]
 		if !ok {
 			vb = p.heapGet(b, k, va.Sort)
@@ -341,7 +380,8 @@ func (p *Proc) merge2(a, b *State) *State {
 			m.heap[k] = p.defineIte(m, "mh_"+k, sel, va, vb)
 		}
 	}
-	for k, vb := range b.heap {
+	for _, k := range sortedKeys(b.heap) {
+		vb := b.heap[k]
 		if _, ok := a.heap[k]; ok {
 			continue
 		}
@@ -352,14 +392,16 @@ func (p *Proc) merge2(a, b *State) *State {
 			m.heap[k] = p.defineIte(m, "mh_"+k, sel, va, vb)
 		}
 	}
-	for k, va := range a.resolved {
+	for _, k := range sortedObjs(a.resolved) {
+		va := a.resolved[k]
 		vb, ok := b.resolved[k]
 		if !ok {
 			vb = IntLit(0)
 		}
 		m.resolved[k] = Ite(sel, va, vb)
 	}
-	for k, vb := range b.resolved {
+	for _, k := range sortedObjs(b.resolved) {
+		vb := b.resolved[k]
 		if _, ok := a.resolved[k]; !ok {
 			m.resolved[k] = Ite(sel, IntLit(0), vb)
 		}
@@ -419,4 +461,19 @@ func keyMatches(key, pat string) bool {
 		return strings.Contains(key, pat[1:])
 	}
 	return strings.HasPrefix(key, pat)
+}
+
+// sortedObjs returns the keys of an object map in a deterministic order.
+func sortedObjs(m map[types.Object]*Term) []types.Object {
+	ks := make([]types.Object, 0, len(m))
+	for k := range m {
+		ks = append(ks, k)
+	}
+	sort.Slice(ks, func(i, j int) bool {
+		if ks[i].Pos() != ks[j].Pos() {
+			return ks[i].Pos() < ks[j].Pos()
+		}
+		return ks[i].Name() < ks[j].Name()
+	})
+	return ks
 }
